@@ -3,6 +3,8 @@ package main
 // Engine: loads /repo's working tree (typed AST), indexes functions, holds contracts and the spec prelude.
 
 import (
+	"encoding/hex"
+	"crypto/sha256"
 	"fmt"
 	"go/ast"
 	"go/constant"
@@ -30,6 +32,7 @@ type FuncInfo struct {
 	RetOrd  map[*ast.ReturnStmt]int // return statements: ordinal (1-based, source order), closures excluded
 	DeclOrder []*types.Var // receiver, parameters, named results, then every local variable in order of declaration
 	NSigIn, NSigOut int    // how many of DeclOrder are receiver+parameters / named results
+	LoopFP  []string              // fingerprint of loop k+1: its statement with variables replaced by position-independent tokens (see loopFingerprints)
 	DeclTag map[*types.Var]string // loop role of a variable: "<ord>i" declared by the init statement of loop ord, "<ord>k" / "<ord>v" range key / value
 	NRets   int
 }
@@ -275,6 +278,92 @@ func (e *Engine) declOrder(fi *FuncInfo) {
 	})
 }
 
+// loopFingerprints: a hash of every loop statement in which variables are written as tokens that survive renaming and
+// the reordering of branches: a variable declared by a loop is `$L`, any other variable is `$<n>` with n its rank among
+// the function's non-loop variables, everything else (functions, constants, fields, literals, operators) is kept.  When
+// an edit swaps the branches of an if / the cases of a switch, the loops inside change their ordinals but not their
+// fingerprints, and the contract's `loop k` clauses follow them (loopRecorded).
+func (e *Engine) loopFingerprints(fi *FuncInfo) {
+	fi.LoopFP = make([]string, fi.NLoops)
+	info := fi.Pkg.TypesInfo
+	rank := map[*types.Var]int{}
+	n := 0
+	for _, v := range fi.DeclOrder {
+		if fi.DeclTag[v] == "" {
+			rank[v] = n
+			n++
+		}
+	}
+	for nd, ord := range fi.Loops {
+		var sb strings.Builder
+		ast.Inspect(nd, func(x ast.Node) bool {
+			switch y := x.(type) {
+			case nil:
+				sb.WriteString(")")
+				return false
+			case *ast.Ident:
+				var obj types.Object = info.Uses[y]
+				if obj == nil {
+					obj = info.Defs[y]
+				}
+				if v, ok := obj.(*types.Var); ok && !v.IsField() {
+					if fi.DeclTag[v] != "" {
+						sb.WriteString("$L ")
+					} else if r, ok := rank[v]; ok {
+						fmt.Fprintf(&sb, "$%d ", r)
+					} else {
+						sb.WriteString(y.Name + " ")
+					}
+				} else {
+					sb.WriteString(y.Name + " ")
+				}
+			case *ast.BasicLit:
+				sb.WriteString(y.Value + " ")
+			case *ast.BinaryExpr:
+				sb.WriteString("(" + y.Op.String() + " ")
+			case *ast.UnaryExpr:
+				sb.WriteString("(" + y.Op.String() + " ")
+			case *ast.AssignStmt:
+				sb.WriteString("(" + y.Tok.String() + " ")
+			case *ast.IncDecStmt:
+				sb.WriteString("(" + y.Tok.String() + " ")
+			case *ast.BranchStmt:
+				sb.WriteString("(" + y.Tok.String() + " ")
+			default:
+				fmt.Fprintf(&sb, "(%T ", x)
+			}
+			return true
+		})
+		h := sha256.Sum256([]byte(sb.String()))
+		// coarse signature: the functions the loop calls (survives edits of the body that keep its job)
+		callees := map[string]bool{}
+		ast.Inspect(nd, func(x ast.Node) bool {
+			if call, ok := x.(*ast.CallExpr); ok {
+				switch f := call.Fun.(type) {
+				case *ast.Ident:
+					if _, isFn := info.Uses[f].(*types.Func); isFn {
+						callees[f.Name] = true
+					}
+				case *ast.SelectorExpr:
+					if _, isFn := info.Uses[f.Sel].(*types.Func); isFn {
+						callees[f.Sel.Name] = true
+					}
+				}
+			}
+			return true
+		})
+		var cs []string
+		for c := range callees {
+			cs = append(cs, c)
+		}
+		sort.Strings(cs)
+		fi.LoopFP[ord-1] = hex.EncodeToString(h[:4])
+		if len(cs) > 0 {
+			fi.LoopFP[ord-1] += ":" + strings.Join(cs, ",")
+		}
+	}
+}
+
 // declTags: which variables are declared by loops (their role is stable under renaming and under added locals)
 func (e *Engine) declTags(fi *FuncInfo) {
 	fi.DeclTag = map[*types.Var]string{}
@@ -314,6 +403,7 @@ func (e *Engine) declTags(fi *FuncInfo) {
 func (e *Engine) indexAnchors(fi *FuncInfo) {
 	e.declOrder(fi)
 	e.declTags(fi)
+	e.loopFingerprints(fi)
 	fi.Anchors = map[ast.Stmt][]string{}
 	fi.CallOrd = map[string]int{}
 	fi.GotoOrd = map[*ast.BranchStmt]int{}
